@@ -401,6 +401,120 @@ def h_roundtrip(mask: int, ti: int, si: int, schema_kind: int, deepsp: bool):
     assert not problems
 
 
+# ---------------------------------------------------------------------------------------------- E4: round trips with awkward content / locations
+def _tree_content(pr):
+    """like _project_content, but the file tree includes (empty) directories"""
+    out = {}
+    for job in pr:
+        files = {}
+        for dp, dn, fn in os.walk(job.path):
+            for d_ in dn:
+                files[os.path.relpath(os.path.join(dp, d_), job.path) + "/"] = None
+            for f_ in fn:
+                rel = os.path.relpath(os.path.join(dp, f_), job.path)
+                if rel not in ("signac_statepoint.json", "signac_job_document.json"):
+                    with open(os.path.join(dp, f_), "rb") as fh:
+                        files[rel] = fh.read()
+        out[job.id] = (json.dumps(job.statepoint(), sort_keys=True), json.dumps(dict(job.document()), sort_keys=True), files)
+    return out
+
+
+def _zip_bytes():
+    import io, zipfile
+    b = io.BytesIO()
+    with zipfile.ZipFile(b, "w") as z:
+        z.writestr("inner.txt", "hi")
+    return b.getvalue()
+
+
+SP_KINDS = ["empty directory in a job", "a zip file among the job's data", "target path shares a string prefix with the importing project's workspace",
+            "state point value with '..' segments", "path function that leaves the target"]
+ESC_U = [[{"a": "../../escaped"}, {"a": "y"}], [{"a": ".."}, {"a": "y"}], [{"a": "x/../../../up"}, {"a": "y"}]]
+
+
+def _rt_special_case(kind, ti, njobs, var):
+    problems = []
+    with SL.Scratch() as sc:
+        src = signac.init_project(os.path.join(sc.root, "box", "src"))
+        dst = signac.init_project(os.path.join(sc.root, "box", "dst"))
+        sps = [{"a": i} for i in range(njobs)]
+        if kind == 3:
+            sps = ESC_U[var % len(ESC_U)][:max(njobs, 2)]
+        for i, sp in enumerate(sps):
+            j = src.open_job(sp).init()
+            j.document["d"] = i
+            SL.put(j.fn("f.txt"), b"F%d" % i, SL.T_MID)
+            if kind == 0:
+                os.makedirs(j.fn("empty_dir"))
+                os.makedirs(j.fn("sub/also_empty"))
+                SL.put(j.fn("sub/n.txt"), b"N", SL.T_MID)
+            if kind == 1:
+                SL.put(j.fn("z.zip"), _zip_bytes(), SL.T_MID)
+        want = _tree_content(src)
+        name = RT_TARGETS[ti]
+        if kind == 2:
+            target = [dst.workspace + "_export", dst.workspace + "2", dst.path + "_old"][var % 3] + name[3:]
+        else:
+            target = os.path.join(sc.root, "box", "exp", name)
+            os.makedirs(os.path.dirname(target))
+        before_src = SL.snap(src.path)
+        outside_before = SL.snap(sc.root)
+        spec = None
+        if kind == 4:
+            spec = [lambda job: os.path.join("..", "up", job.id), lambda job: os.path.join(sc.root, "abs", job.id), lambda job: os.path.join("ok", "..", "..", job.id)][var % 3]
+        try:
+            src.export_to(target, path=spec)
+            exported = True
+        except Exception as e:  # noqa
+            exported, exc = False, e
+        trel = os.path.relpath(target, sc.root)
+        after = SL.snap(sc.root)
+        stray = sorted(k for k in after if k not in outside_before and not (k == trel or k.startswith(trel + "/")))
+        if stray:
+            problems.append(("export wrote outside its target", stray[:3]))
+        if SL.snap(src.path) != before_src:
+            problems.append(("export changed the source project",))
+        if not exported:
+            if kind in (0, 1, 2):
+                problems.append(("export of an ordinary project raised", type(exc).__name__, str(exc)[:100]))
+            elif ti == 0 and os.path.exists(target) and any(v is not None for v in SL.snap(target).values()):
+                problems.append(("export raised after copying job data",))
+            return problems
+        if kind in (3, 4) and ti != 0:
+            # archives: member names must not leave the archive root either
+            import tarfile, zipfile
+            names = zipfile.ZipFile(target).namelist() if ti == 1 else tarfile.open(target).getnames()
+            bad = [n for n in names if n.startswith("/") or ".." in n.split("/")]
+            if bad:
+                problems.append(("archive member names leave the archive root", bad[:3]))
+                return problems
+        around_before = {k: v for k, v in SL.snap(sc.root).items() if not k.startswith("box/dst/")}
+        try:
+            dst.import_from(target)
+        except Exception as e:  # noqa
+            problems.append(("import of a successful export raised", type(e).__name__, str(e)[:100]))
+            return problems
+        got = _tree_content(signac.get_project(dst.path, search=False))
+        if got != want:
+            detail = [(i, sorted(set(got[i][2]) ^ set(want[i][2]))[:3]) for i in set(got) & set(want) if got[i] != want[i]][:2]
+            problems.append(("re-imported project differs", "jobs exported %d, imported %d" % (len(want), len(got)), detail))
+        around_after = {k: v for k, v in SL.snap(sc.root).items() if not k.startswith("box/dst/")}
+        if around_after != around_before:
+            problems.append(("import wrote outside the importing project",))
+    return problems
+
+
+def h_rt_special(kind: int, ti: int, njobs: int, var: int):
+    assert 0 <= kind <= 4 and 0 <= ti < 6 and 1 <= njobs <= 2 and 0 <= var <= 2 and part_ok(kind)
+    assert tier() != "quick" or ti <= 3
+    fresh_path()
+    kind, ti, njobs, var = ci(kind, 0, 4), ci(ti, 0, 5), ci(njobs, 1, 2), ci(var, 0, 2)
+    with nt():
+        problems = _rt_special_case(kind, ti, njobs, var)
+    reached()
+    assert not problems
+
+
 # ---------------------------------------------------------------------------------------------- E4: import with a schema (string / callable)
 IS_U = [{"a": 1}, {"a": 10}, {"a": 1.0}, {"a": "1"}, {"a": True}, {"a": False}]
 IS_T = ["out", "out.zip", "out.tar"]
@@ -556,6 +670,7 @@ def h_import_foreign(ni: int, ti: int, sk: int):
 HARNESSES = [
     dict(name="h_roundtrip", timeout=(900, 3000), parts=(16, 32), unblock=True),
     dict(name="h_import_foreign", timeout=(300, 600), unblock=True),
+    dict(name="h_rt_special", timeout=(600, 1200), parts=(5, 5), unblock=True),
     dict(name="h_import_schema", twin="h_import_schema__reach", timeout=(600, 1200), parts=(4, 4), unblock=True),
     dict(name="h_leafnode", twin="h_leafnode__reach", timeout=(600, 1500), parts=(16, 16)),
     dict(name="h_pathmap", twin="h_pathmap__reach", timeout=(400, 1500), parts=(14, 28), unblock=True),
